@@ -115,7 +115,9 @@ impl BuildOptimiser {
         let kt_ratio = match (self.kt_ratio, self.kt_finish) {
             // Reducing the temperature by more than all of it leaves none: a negative factor
             // would flip the sign of the temperature (and of a zero temperature) every loop.
-            (Some(ratio), _) => f64::max(0., 1. - ratio),
+            // (an unbounded factor is capped at the largest number: times a zero temperature it
+            // must still give zero)
+            (Some(ratio), _) => f64::min(f64::MAX, f64::max(0., 1. - ratio)),
             // A temperature of zero stays zero, there is no finite factor away from it
             (None, Some(_)) if self.kt_start == 0. => 1.,
             (None, Some(finish)) => f64::powf(finish / self.kt_start, 1. / loops as f64),
@@ -128,7 +130,9 @@ impl BuildOptimiser {
         };
 
         MCOptimiser {
-            kt_start: self.kt_start,
+            // A zero that carries a minus sign is a zero temperature like any other: dividing a
+            // score difference by it must not turn a worse move into a certain acceptance.
+            kt_start: if self.kt_start == 0. { 0. } else { self.kt_start },
             kt_ratio,
             max_step_size: self.max_step_size,
             steps: self.steps,
